@@ -153,6 +153,23 @@ def run(prog: Program, L: Ledger) -> None:
         if not defs_ or len({norm(v_) for _f, _s, v_ in defs_}) != 1:
             continue
         f_def, st_def, v_def = defs_[0]
+        # a parameter / local that is stored as it is into an attribute in the same function stands for that attribute
+        # (`self.shaped_masses = masses; self.min_mass = np.min(masses)`): quantities are recognised by their attribute text
+        stored_ = {}
+        for n_ in walk_no_nested(f_def.node):
+            if isinstance(n_, ast.Assign) and isinstance(n_.value, ast.Name) and len(n_.targets) == 1 and isinstance(n_.targets[0], ast.Attribute) \
+                    and norm(n_.targets[0].value) == "self" and n_.targets[0].attr != attr:
+                stored_[n_.value.id] = n_.targets[0].attr
+        if stored_ and any(isinstance(n_, ast.Name) and n_.id in stored_ for n_ in ast.walk(v_def)):
+            import copy as _copy
+
+            class _Sub(ast.NodeTransformer):
+                def visit_Name(self_, n_):
+                    if isinstance(n_.ctx, ast.Load) and n_.id in stored_:
+                        return ast.Attribute(value=ast.Name(id="self", ctx=ast.Load()), attr=stored_[n_.id], ctx=ast.Load())
+                    return n_
+
+            v_def = ast.fix_missing_locations(_Sub().visit(_copy.deepcopy(v_def)))
         try:
             val = Translator(vocab).tr(v_def)
         except Unsupported:
